@@ -32,7 +32,7 @@ def file_ok(s: str) -> bool:
 # ---- print o parse / parse o print ---------------------------------------------------------------
 def _c09_print_then_parse_name(s: str) -> bool:
     """
-    pre: len(s) <= 3 and name_ok(s)
+    pre: 1 <= len(s) <= 3 and 33 <= ord(s[0]) <= 126 and 33 <= ord(s[-1]) <= 126 and (len(s) < 3 or 33 <= ord(s[1]) <= 126) and ':' not in s and '/' not in s and '%' not in s and s[0] != '.' and not s.startswith('sta') and s != 'bin'
     post: _
     """
     ok = True
@@ -52,7 +52,7 @@ def _c09_print_then_parse_name_pre(s):
 
 def _c09_print_then_parse_file(f: str) -> bool:
     """
-    pre: len(f) <= 3 and file_ok(f)
+    pre: 1 <= len(f) <= 3 and 33 <= ord(f[0]) <= 126 and 33 <= ord(f[-1]) <= 126 and (len(f) < 3 or 33 <= ord(f[1]) <= 126) and ':' not in f and '%' not in f and f[0] != '/' and f[-1] != '/' and '//' not in f
     post: _
     """
     ok = True
@@ -68,7 +68,7 @@ def _c09_print_then_parse_file_pre(f):
 
 def _c09_parse_then_print(s: str) -> bool:
     """
-    pre: len(s) <= 3 and name_ok(s)
+    pre: 1 <= len(s) <= 3 and 33 <= ord(s[0]) <= 126 and 33 <= ord(s[-1]) <= 126 and (len(s) < 3 or 33 <= ord(s[1]) <= 126) and ':' not in s and '/' not in s and '%' not in s and s[0] != '.' and not s.startswith('sta') and s != 'bin'
     post: _
     """
     ok = True
@@ -83,7 +83,7 @@ _c09_parse_then_print_pre = _c09_print_then_parse_name_pre
 
 def _c09_relative_equals_absolute(s: str) -> bool:
     """
-    pre: len(s) <= 3 and name_ok(s)
+    pre: 1 <= len(s) <= 3 and 33 <= ord(s[0]) <= 126 and 33 <= ord(s[-1]) <= 126 and (len(s) < 3 or 33 <= ord(s[1]) <= 126) and ':' not in s and '/' not in s and '%' not in s and s[0] != '.' and not s.startswith('sta') and s != 'bin'
     post: _
     """
     ok = True
@@ -104,7 +104,7 @@ _c09_relative_equals_absolute_pre = _c09_print_then_parse_name_pre
 
 def _c09_relative_equals_absolute_stage_like(t: str) -> bool:
     """
-    pre: len(t) <= 3 and _printable(t) and not any(c in t for c in ':/%') and not t[:1].isdigit() and t[:1] != '.'
+    pre: 1 <= len(t) <= 3 and 33 <= ord(t[0]) <= 126 and 33 <= ord(t[-1]) <= 126 and (len(t) < 3 or 33 <= ord(t[1]) <= 126) and ':' not in t and '/' not in t and '%' not in t and t[0] not in '0123456789.'
     post: _
     """
     # component names that merely begin like a stage prefix, e.g. 'stage1x.b'
@@ -120,7 +120,7 @@ def _c09_relative_equals_absolute_stage_like_pre(t):
 
 def _c09_expand_idempotent(s: str) -> bool:
     """
-    pre: len(s) <= 3 and name_ok(s)
+    pre: 1 <= len(s) <= 3 and 33 <= ord(s[0]) <= 126 and 33 <= ord(s[-1]) <= 126 and (len(s) < 3 or 33 <= ord(s[1]) <= 126) and ':' not in s and '/' not in s and '%' not in s and s[0] != '.' and not s.startswith('sta') and s != 'bin'
     post: _
     """
     ok = True
@@ -142,7 +142,7 @@ _c09_expand_idempotent_pre = _c09_print_then_parse_name_pre
 # ---- classification ------------------------------------------------------------------------------
 def _c09_manifest_top_level(k: str) -> bool:
     """
-    pre: 1 <= len(k) <= 4 and _printable(k) and not k.startswith('/') and ':' not in k
+    pre: 1 <= len(k) <= 3 and 33 <= ord(k[0]) <= 126 and 33 <= ord(k[-1]) <= 126 and (len(k) < 3 or 33 <= ord(k[1]) <= 126) and k[0] != '/' and ':' not in k
     post: _
     """
     m = Manifest({k: 'src:copy'})
@@ -155,7 +155,7 @@ def _c09_manifest_top_level_pre(k):
 
 def _c09_manifest_folder_is_not_component(k: str) -> bool:
     """
-    pre: 1 <= len(k) <= 4 and _printable(k) and not k.startswith('/') and not any(c in k for c in ':%.') and k.split('/')[0] != ''
+    pre: 1 <= len(k) <= 3 and 33 <= ord(k[0]) <= 126 and 33 <= ord(k[-1]) <= 126 and (len(k) < 3 or 33 <= ord(k[1]) <= 126) and k[0] != '/' and ':' not in k and '%' not in k and '.' not in k
     post: _
     """
     top = Manifest({k: 'src:copy'}).top_level_folders
@@ -172,7 +172,7 @@ def _c09_manifest_folder_is_not_component_pre(k):
 
 def _c09_reserved_first_segment_is_direct(s: str) -> bool:
     """
-    pre: len(s) <= 3 and file_ok(s)
+    pre: 1 <= len(s) <= 3 and 33 <= ord(s[0]) <= 126 and 33 <= ord(s[-1]) <= 126 and (len(s) < 3 or 33 <= ord(s[1]) <= 126) and ':' not in s and '%' not in s and s[0] != '/' and s[-1] != '/' and '//' not in s
     post: _
     """
     ok = True
@@ -194,7 +194,7 @@ def _c09_reserved_first_segment_is_direct_pre(s):
 
 def _c09_known_component_is_component(s: str) -> bool:
     """
-    pre: len(s) <= 3 and name_ok(s)
+    pre: 1 <= len(s) <= 3 and 33 <= ord(s[0]) <= 126 and 33 <= ord(s[-1]) <= 126 and (len(s) < 3 or 33 <= ord(s[1]) <= 126) and ':' not in s and '/' not in s and '%' not in s and s[0] != '.' and not s.startswith('sta') and s != 'bin'
     post: _
     """
     ok = True
@@ -210,7 +210,7 @@ _c09_known_component_is_component_pre = _c09_print_then_parse_name_pre
 
 def _c09_uid_injective(a: str, b: str) -> bool:
     """
-    pre: len(a) <= 3 and len(b) <= 3 and name_ok(a) and name_ok(b) and a != b
+    pre: 1 <= len(a) <= 2 and 1 <= len(b) <= 2 and 33 <= ord(a[0]) <= 126 and 33 <= ord(a[-1]) <= 126 and 33 <= ord(b[0]) <= 126 and 33 <= ord(b[-1]) <= 126 and ':' not in a and ':' not in b and '/' not in a and '/' not in b and '.' not in a and '.' not in b and a != b
     post: _
     """
     ua = graph.ComponentIdentifier('stage0.' + a).to_uid('file://gw/inst')
